@@ -69,6 +69,12 @@ def build(cfg):
     if cfg["func"] in ("argmax", "argmin") and cfg.get("engine") == "flox":
         kw["engine"] = "numpy"
     chunks = tuple(cfg["chunks"]) if cfg.get("method") != "blockwise" else (len(cfg["vals"]),)
+    if cfg.get("by_dask"):
+        # labels held in a dask array and discovered at compute time: sort is not reflected in any expected index
+        lab = da.from_array(lab, chunks=(chunks,))
+        kw.pop("method", None)
+        res, *groups = flox.groupby_reduce(da.from_array(v, chunks=(chunks,)), lab, func=cfg["func"], sort=cfg["sort"], **kw)
+        return res, groups[0]
     res, *groups = flox.groupby_reduce(da.from_array(v, chunks=(chunks,)), lab, func=cfg["func"], sort=cfg["sort"],
                                        expected_groups=np.array(cfg["expected"]), **kw)
     return res, groups[0]
@@ -92,6 +98,13 @@ def cocompute_pairs(run, rng, n):
                 base = dict(base, min_count=1, fill_value=float("nan"))
             if ing == "sort":
                 base = dict(base, method="cohorts", expected=[2, 0, 1])
+                if rng.random() < 0.5:
+                    # labels discovered at compute time, first appearance not in sorted order
+                    labs = list(base["labels"])
+                    if labs == sorted(labs):
+                        labs = labs[::-1]
+                    base = dict(base, by_dask=True, labels=labs, func=rng.choice(["sum", "nanmax", "count", "prod"]))
+                    c2 = dict(c2, by_dask=True, labels=labs, func=base["func"])
             if ing == "fill_value":
                 base = dict(base, fill_value=3.0, expected=[0, 1, 2, 5])
             if ing == "reindex":
